@@ -291,6 +291,40 @@ fn run(t: &Tape, want_desc: bool) -> CaseResult {
                     break 'states;
                 }
             }
+            // --- smuggling: the same message as the payload of the contract's public cw20 Receive entry,
+            // with the free `sender` field of the envelope set to the authorised address (or the caller).
+            // Nobody is authorised to reach a privileged/internal message this way.
+            let is_router = cell.contract == base.router.as_str();
+            let is_pair = base.pairs.iter().any(|p| p.addr == cell.contract);
+            if twin_ok && (is_router || is_pair) {
+                let mut carriers: Vec<(&'static str, String)> = vec![("stranger", base.actors[0].to_string()), ("rogue-cw20(impersonated)", base.proxy.to_string())];
+                if let Some(tk) = base.tokens.first() {
+                    carriers.push(("an-asset-token", tk.addr.to_string()));
+                }
+                if let Some(p) = base.pairs.first() {
+                    carriers.push(("an-lp-token", p.lp.to_string()));
+                }
+                for (cname, caddr) in carriers {
+                    let spoofs: Vec<String> = cell.twin.iter().cloned().chain(std::iter::once(caddr.clone())).collect();
+                    for spoof in spoofs {
+                        let envelope = Cw20ReceiveMsg { sender: spoof.clone(), amount: Uint128::new(1 + s.below(1000) as u128), msg: cell.msg.clone() };
+                        let wrapped = if is_router { to_binary(&RouterExec::Receive(envelope)).unwrap() } else { to_binary(&PairExec::Receive(envelope)).unwrap() };
+                        let mut f = base.fork();
+                        let rec = send(&mut f, &caddr, false, &cell.contract, &wrapped);
+                        judged += 1;
+                        classes.push(label(m, cname, "rejected when smuggled through Receive"));
+                        if rec.outcome.is_ok() {
+                            verdict = Verdict::Fail(format!(
+                                "{} was accepted as the payload of the contract's cw20 Receive entry, sent by {} ({}) with the envelope's sender field set to {}: only {:?} may send it", MESSAGES[m], cname, caddr, spoof, cell.authorised));
+                            break 'states;
+                        }
+                        if !rec.state_unchanged() {
+                            verdict = Verdict::Fail(format!("{} smuggled through Receive by {} was rejected but changed chain state", MESSAGES[m], cname));
+                            break 'states;
+                        }
+                    }
+                }
+            }
         }
     }
     classes.sort();
@@ -318,7 +352,7 @@ pub fn suites() -> Vec<Suite> {
     }]
 }
 
-pub const RULE: &str = "case = generated world (1-2 pairs of generated kinds, liquidity seeded, half of the provider's LP tokens donated to the pair so that a forged withdraw hook has something to burn, router funded) x {before, after UpdateConfig{owner: actor3}} x ALL 9 messages (factory UpdateConfig / CreatePair / AddNativeTokenDecimals / MigratePair; pair UpdateNativeTokenDecimals / Receive(WithdrawLiquidity) / Receive(Swap); router ExecuteSwapOperation / AssertMinimumReceive) with generated arguments x ALL caller roles (current owner, former owner, stranger, fresh address, factory, router, every pair, every LP token, every asset token, the rogue cw20 contract both impersonated and through its forwarding entry point); a cell is judged when the authorised twin succeeded on a fork of the same state (or when no caller can be authorised at all): the role under test must fail and leave the chain byte-identical; non-trivial = a case with at least one judged cell; distinct = hash of the tape; the class histogram lists every cell with its count";
+pub const RULE: &str = "case = generated world (1-2 pairs of generated kinds, liquidity seeded, half of the provider's LP tokens donated to the pair so that a forged withdraw hook has something to burn, router funded) x {before, after UpdateConfig{owner: actor3}} x ALL 9 messages (factory UpdateConfig / CreatePair / AddNativeTokenDecimals / MigratePair; pair UpdateNativeTokenDecimals / Receive(WithdrawLiquidity) / Receive(Swap); router ExecuteSwapOperation / AssertMinimumReceive) with generated arguments x ALL caller roles (current owner, former owner, stranger, fresh address, factory, router, every pair, every LP token, every asset token, the rogue cw20 contract both impersonated and through its forwarding entry point; additionally every pair/router message is smuggled as the payload of the contract's public cw20 Receive entry by a stranger, the rogue contract, an asset token and an LP token, with the envelope's free sender field set to the authorised address or to the caller); a cell is judged when the authorised twin succeeded on a fork of the same state (or when no caller can be authorised at all): the role under test must fail and leave the chain byte-identical; non-trivial = a case with at least one judged cell; distinct = hash of the tape; the class histogram lists every cell with its count";
 pub const ASSUMPTIONS: &[&str] = &[
     "cw-multi-test lets any address be the sender of a message: contract roles are exercised by impersonation, the rogue contract additionally through its own Forward entry point",
     "for pair.Receive(Swap) every cw20 asset of the pair counts as authorised by the statement; whether the hook's named asset matches the sender is C02's subject",
